@@ -10,7 +10,7 @@
 (*  Headers {regs, hdr}                 Route.Headers on the handle that   *)
 (*                                      the call creating regs returned    *)
 (*  Name    {reg, name, panicked}                                          *)
-(*  Serve   {m, raw, p, h, dec, decok, adm, splits, hadm,                  *)
+(*  Serve   {oskip, m, raw, p, h, dec, decok, adm, splits, hadm,           *)
 (*           reg, params, panicked, chains, rb_with, rb_without}           *)
 (*  URLPath {reg, vals, withopt, out, panicked, byname}                    *)
 (* adm/splits/hadm/dec/decok are oracle facts computed by the harness with *)
@@ -108,7 +108,8 @@ ServeVerdict(e) ==
       w11 == WinnerWithG(e.m, e.p, orc, ElP, Ghosts(e.m))
       \* an open finding may coincide with D5 / D3 on the same request
       goodX(v) == IF "D5" \in Dev /\ multi(v) THEN goodNoRb(v) ELSE good(v)
-  IN IF sane /\ good(w) THEN "ok"
+  IN IF e.oskip THEN (IF sane THEN "ok" ELSE "bad")   \* input beyond the oracle's reach: totality only (C07)
+     ELSE IF sane /\ good(w) THEN "ok"
      ELSE IF ~sane THEN "bad"
      ELSE IF "D5" \in Dev /\ multi(w) /\ goodNoRb(w) THEN "D5"
      ELSE IF "D6" \in Dev /\ w6 # w /\ w6.short /\ goodX(w6) THEN "D6"
